@@ -5,7 +5,15 @@ candidate ids whose score is not -inf; two samplers with the same seed return th
 the same sequence of inputs).  MC_Samplers checks the contracts' sanity over a small input space and
 emits every vector of it; vh-gen drives the real samplers over those and over seeded inputs in the
 property's domain (dense/sparse, -inf entries also first, ties, single candidates, vocabulary-sized
-vectors) with many draws per case; Trace_Samplers judges every returned id and the seed clause."""
+vectors) with many draws per case; Trace_Samplers judges every returned id and the seed clause.
+Controlled draws: the harness scans fastrand seeds (2^22 quick / 2^24 thorough) for those whose first
+f32 draw is extreme (the largest land in the rounding gap above the f32 sum of the probabilities, the
+smallest on the first candidate) plus ordinary ones, and draws once per seed from a fresh
+Multinomial::with_seed(seed) over candidate sets of sizes 15,16,17,31,32,33,255,256,257,4096,65528
+(,65536) -- dense and sparse ids, -inf candidates first, in the middle and as a tail of every length
+0..20, equal / nearly equal / spread / huge-spread (denormal and zero probabilities) / tied scores;
+the draw's bit pattern is logged and TLC judges that every id returned is a candidate with non-zero
+probability."""
 import json
 import os
 import sys
@@ -49,6 +57,10 @@ def run(ctx):
 
     with ThreadPoolExecutor(max_workers=4) as ex:
         traces = list(ex.map(harness, jobs))
+    # controlled draws over block-/vector-width sized candidate sets
+    sized = ctx.path("samp_sized.ndjson")
+    ctx.harness("vh-gen", ["samplers", "--sized", ctx.tier, "--out", sized], timeout=3000)
+    traces.append(sized)
     res = _genlib.parallel_trace(ctx, SPEC, CFG, traces, workers=4)
     if not ctx.quick:
         # a dedicated seeded trace (both samplers, small draws) is corrupted for the binding self-test
@@ -62,6 +74,8 @@ def finish(ctx, traces, res, nvec):
     total = dnt = 0
     seen = set()
     by = {}
+    sizes = {}
+    nseeds = 0
     maxlen = 0
     for t in traces:
         with open(t) as f:
@@ -80,12 +94,17 @@ def finish(ctx, traces, res, nvec):
                     dnt += 1
                     if dnt % 499 == 1 and max(len(v["key"]) for v in r["vs"]) <= 12:
                         ctx.add_samples([{k: r[k] for k in ("sampler", "dense", "seed", "vs", "rounds", "draws")}])
+                if r["src"] == "sized":
+                    sizes[len(r["vs"][0]["key"])] = sizes.get(len(r["vs"][0]["key"]), 0) + 1
+                    nseeds = max(nseeds, len(r["useeds"]))
     ctx.cov["evaluations"] = total
     ctx.cov["distinct_nontrivial"] = dnt
     ctx.cov["traces_validated_against_impl"] = total
     ctx.cov["cases_by_sampler_and_source"] = by
     ctx.cov["vectors_generated_by_tlc"] = nvec
     ctx.cov["longest_vector"] = maxlen
+    ctx.cov["controlled_draw_cases_by_size"] = {str(k): v for k, v in sorted(sizes.items())}
+    ctx.cov["controlled_draw_seeds_per_case"] = nseeds
     ctx.cov["trace_stats"] = res["stats"]
     ctx.cov["draws_judged"] = res["stats"].get("draws", 0)
     if res["stats"].get("panics", 0):
@@ -99,14 +118,17 @@ def finish(ctx, traces, res, nvec):
              "3 (quick) / 4 (thorough) is enumerated by TLC; seeded cases: lengths 1..48 and vocabulary-sized 1000..7000, -inf "
              "entries (also first), ties, all-tied, nearly equal scores, single candidates; per multinomial case 8-16 rounds "
              "recorded as sequences for two same-seed samplers plus 1e3..4e5 further draws per vector recorded as "
-             "(id, count) tables; distinct by (sampler, dense, seed, vectors); non-trivial = some vector has >= 2 entries",
+             "(id, count) tables; controlled-draw cases: sizes 15..65536 around block widths, -inf head / middle / tail of length "
+             "0..20, one draw per scanned seed (extreme and ordinary first draws); distinct by (sampler, dense, seed, vectors); non-trivial = some vector has >= 2 entries",
         assumptions=[
             "domain = the property's quantifier: non-empty, distinct ids, no NaN, no +inf; multinomial: at least one score > -inf",
             "'non-zero probability' is read mathematically: only a -inf score has probability zero (a finite score that "
             "underflows to 0 in f32 softmax is not flagged)",
             "-0.0 and +0.0 count as equal scores for arg-max",
             "the seed clause is checked on two Multinomial::with_seed(s) instances fed the same input sequence (first 8-16 rounds)",
-            "the multinomial clause is statistical evidence only: a draw that never happened is not judged",
+            "the multinomial clause is evidence for the draws made only: a draw that never happened is not judged",
+            "for a controlled draw only the essential clause is judged (candidate with non-zero probability); which candidate's "
+            "cumulative interval contains u is not recomputed in TLA+ (the probabilities are internal f32 softmax values)",
         ],
         exhaustive=False)
 
